@@ -109,8 +109,13 @@ def one_tree(ctx, out, spec, objs, via_json, style="inplace", shared_late=False)
     want = [mirror(c, pool, objs) for c in tree.children]
     if style == "renamed-id":
         want = [rename_id(c) for c in want]
+    try:
+        dl_text = json.dumps(dl)
+    except Exception as e:  # noqa
+        out.fail(case, f"to_dict_list() returns a structure that cannot be dumped as JSON ({type(e).__name__}: {e}); tree {spec}")
+        return
     if dl != want:
-        out.fail(case, f"to_dict_list() = {json.dumps(dl)[:300]}, documented mirror {json.dumps(want)[:300]}", impl=dl, spec=want)
+        out.fail(case, f"to_dict_list() = {dl_text[:300]}, documented mirror {json.dumps(want)[:300]}", impl=dl, spec=want)
     if S.tree_shape(tree, pool) != before:
         out.fail(case, "to_dict_list() changed the tree")
     ser = adapter.Serials()
